@@ -35,7 +35,7 @@ fn plan(prop: &str, thorough: bool) -> Vec<(String, u64)> {
         "C02" => vec![("hist", q(800_000, 6_400_000)), ("histf", q(400_000, 3_200_000))],
         "C03" => vec![("hist", q(600_000, 4_800_000)), ("histf", q(500_000, 4_000_000))],
         "C05" => vec![("c05sweep", q(80_000, 640_000)), ("histf", q(500_000, 4_000_000))],
-        "C06" => vec![("c06grid", all), ("histf", q(300_000, 2_400_000))],
+        "C06" => vec![("c06grid", all), ("histf", q(300_000, 1_200_000))],
         "C07" => vec![("c07grid", all), ("histf", q(600_000, 4_800_000))],
         "C08" => vec![("c08grid", all), ("hist", q(800_000, 6_400_000))],
         "C09" => vec![("c09grid", all), ("hist", q(800_000, 6_400_000))],
@@ -213,6 +213,7 @@ fn cmd_batch(args: &[String]) -> i32 {
                     index: idx,
                     violation: simcore::run::Violation {
                         props: vec![prop.clone()],
+                        ctx: Vec::new(),
                         invariant: format!("worker_{class}"),
                         step: 0,
                         op: "unknown".into(),
